@@ -102,6 +102,14 @@ pub(super) fn initialize_side_metadata_base(
     SIDE_METADATA_BASE_ADDRESS.set(base).unwrap();
 }
 
+/// Verification hook: install the runtime base address (and the VM upper bound) without mmapping.
+/// Both cells are write-once, as in production.
+#[cfg(mmtk_verif)]
+pub fn verif_set_side_metadata_base(base: Address, vm_upper_bound_offset: usize) {
+    let _ = VM_SIDE_METADATA_UPPER_BOUND_OFFSET.set(vm_upper_bound_offset);
+    let _ = SIDE_METADATA_BASE_ADDRESS.set(base);
+}
+
 /// Tests need to check if side metadata is initialized so they can avoid attempting to initialize it again.
 #[cfg(test)]
 pub(super) fn is_side_metadata_initialized() -> bool {
